@@ -129,6 +129,23 @@ def main():
                 reach = call_expr(m)
         out["twin"] = {"reached": reach is not None, "witness": reach, "messages": tmsgs[:3],
                        "paths": tstats.get("num_paths", 0), "wall_s": round(twall, 2)}
+        # tagged markers: each named branch must be reachable on its own
+        import inspect
+        import re as _re
+        tags = sorted(set(_re.findall(r'V\.reached\("([A-Za-z_]+)"\)', inspect.getsource(fn))))
+        missing = {}
+        for tag in tags:
+            V.twin, V.want = True, tag
+            tm, ts_, tw_ = analyse(fn, a.twin_timeout * 2, max(5.0, a.twin_timeout), a.seed)
+            V.twin, V.want = False, None
+            hit = [call_expr(m) for s_, m in tm if s_ == "EXEC_ERR" and m.startswith("Reached")]
+            if hit:
+                out["twin"].setdefault("tags", {})[tag] = hit[0]
+            else:
+                missing[tag] = tm[:2]
+        if missing:
+            out["twin"]["reached"] = False
+            out["twin"]["messages"] = [["TAG_UNREACHED", "branch(es) %s not reachable: %r" % (sorted(missing), missing)]]
     print("@@RESULT@@" + json.dumps(out))
 
 
